@@ -464,6 +464,16 @@ func restartsFor(r *rand.Rand, ev uint32, patterns []string) []SessionIn {
 			if r.Intn(3) == 0 {
 				reqs = append(reqs, syncReq(r, false, false))
 			}
+			// the runtime announces its shutdown - last thing of the session or in its middle; the
+			// connection then goes away (or the plugin stops) and the SAME stub is started again:
+			// nothing of the announcement may stick to the next session
+			switch r.Intn(4) {
+			case 0:
+				reqs = append(reqs, ReqIn{Op: "Shutdown", Pods: []string{}, Ctrs: []string{}, Updates: []string{}})
+			case 1:
+				k := r.Intn(len(reqs) + 1)
+				reqs = append(reqs[:k], append([]ReqIn{{Op: "Shutdown", Pods: []string{}, Ctrs: []string{}, Updates: []string{}}}, reqs[k:]...)...)
+			}
 			in.Sessions = append(in.Sessions, SessIn{Cfg: cfgIn(r, m, e), Reqs: reqs, End: end})
 		}
 		// a fixed share of the restart cases starts with a runtime that passes no registration
